@@ -618,8 +618,8 @@ def check_layouts(ctx: Ctx, res: Result):
             res.failures += fails
             if got is not None and S_ <= 40 and t.nelement() <= 40 and (len(model_cases) < ctx.n(380, 6000)):
                 st = [list(raw[k * es:(k + 1) * es]) for k in range(S_)]
-                inp = (f"((1, {term(list(t.shape))}), ({term(list(t.stride()))}, {term(int(t.storage_offset()))}), "
-                       f"{term(st)})")
+                inp = (f"({term(name)}, ((0, {term(list(t.shape))}), ({term(list(t.stride()))}, "
+                       f"{term(int(t.storage_offset()))}), {term(st)}))")
                 exp = val([True, True, bool(t.is_contiguous()), got, got])
                 model_cases.append((inp, exp))
                 model_meta.append({"dtype": name, "shape": list(t.shape), "strides": list(t.stride()),
@@ -667,7 +667,11 @@ def check_layouts(ctx: Ctx, res: Result):
 
     # model correspondence: the byte string the model computes = the byte string tensor_as_memoryview returned
     where = "layout:tensor_as_memoryview~model"
-    bad, errs = coqrun.run_cases("C17_mv", IMP_LAYOUT, "obs_as_memoryview", model_cases, shard=200)
+    # the carrier item size is the one the GENERATED source description gives for the dtype (C17_carrier)
+    fn = ("(fun x : list Z * layout_input => let '(d, ((_, sh), so, st)) := x in "
+          "match C17_carrier d with Some c => obs_as_memoryview ((c, sh), so, st) | None => VL [] end)")
+    bad, errs = coqrun.run_cases("C17_mv", IMP_LAYOUT + "From TS Require Import model.Dtype gen.DtypeGen proofs.C17Gen.\n",
+                                 fn, model_cases, shard=200)
     for e in errs:
         res.mismatches.append(Mismatch(where, "coqc error", None, e))
     for i in bad:
